@@ -604,8 +604,8 @@ func (c17) Run(u fw.Unit) fw.Result {
 					onlyA = false
 				}
 			}
-			for run := 0; run < 5; run++ {
-				if run == 3 && (L > 3 || failed0) {
+			for run := 0; run < 6; run++ {
+				if (run == 3 || run == 5) && (L > 3 || failed0) {
 					continue
 				}
 				if run == 4 {
@@ -644,10 +644,16 @@ func (c17) Run(u fw.Unit) fw.Result {
 					paused = "|state-ttl-group-kept-alive"
 					sql = sql + " WITH (STATETTL='2s')"
 				}
-				if run == 3 {
-					// the aggregated column under a mixed-case name, and no aggregate of the predicate in the SELECT list
+				if run == 3 || run == 5 {
+					// the aggregated column under a mixed-case name, and no aggregate of the predicate in the SELECT list;
+					// run 5: under a name whose underscore-separated parts are the words the predicate lowering rewrites
 					paused = "|mixed-case-column-unselected"
-					sql = "SELECT k, count(*) AS c FROM stream GROUP BY k, GLOBAL WINDOW TRIGGER WHEN " + strings.ReplaceAll(p.SQL, "(v)", "(cpuLoad)")
+					col := "cpuLoad"
+					if run == 5 {
+						paused = "|column-named-with-and-or-parts"
+						col = "or_v_and"
+					}
+					sql = "SELECT k, count(*) AS c FROM stream GROUP BY k, GLOBAL WINDOW TRIGGER WHEN " + strings.ReplaceAll(p.SQL, "(v)", "("+col+")")
 					want = nil
 					for _, w := range wantBase {
 						want = append(want, w[:strings.Index(w, ",s=")]+",s=NULL,a=NULL")
@@ -657,7 +663,7 @@ func (c17) Run(u fw.Unit) fw.Result {
 						r1 := Row{}
 						for k, v := range r0 {
 							if k == "v" {
-								k = "cpuLoad"
+								k = col
 							}
 							r1[k] = v
 						}
@@ -745,7 +751,7 @@ func (c17) Run(u fw.Unit) fw.Result {
 func (c17) Describe(tier string) fw.Description {
 	return fw.Description{
 		Level: "model_checking",
-		Rule: fmt.Sprint(len(c17Preds())) + " TRIGGER WHEN predicates (one comparison over count(*), count(v), sum, avg, min, max; AND / OR of two, also of the same aggregate twice; mixed AND-OR precedence; selected and unselected aggregates) x all row sequences of length 1..L over 2 groups x v in {1,2,3,NULL} on the real engine (eager deterministic schedule; sequences of length <= 3 also with 1.5 s of virtual time after every row; single-group sequences also without GROUP BY and with upper-case aggregate names; also with GetStats / ResetStats calls between rows, with mixed-case unselected aggregates and with STATETTL='2s'); further units: type-independent aggregates over a text column (also count(t) as the trigger), a pairwise group-key identity search, strategy block with a lagging consumer, every aggregate function in SELECT and in the predicate, aggregates over expression arguments, several queries sharing one predicate text, typed numbers; oracle: per group, fire exactly at the rows where the predicate holds on the aggregates since the last fire, result = count/sum/avg over exactly those rows plus the group column, then restart; non-trivial = at least one expected fire",
+		Rule: fmt.Sprint(len(c17Preds())) + " TRIGGER WHEN predicates (one comparison over count(*), count(v), sum, avg, min, max; AND / OR of two, also of the same aggregate twice; mixed AND-OR precedence; selected and unselected aggregates) x all row sequences of length 1..L over 2 groups x v in {1,2,3,NULL} on the real engine (eager deterministic schedule; sequences of length <= 3 also with 1.5 s of virtual time after every row; single-group sequences also without GROUP BY and with upper-case aggregate names; also with GetStats / ResetStats calls between rows, with mixed-case unselected aggregates, with the aggregated column named or_v_and (underscore-separated AND / OR parts) and with STATETTL='2s'); further units: type-independent aggregates over a text column (also count(t) as the trigger), a pairwise group-key identity search, strategy block with a lagging consumer, every aggregate function in SELECT and in the predicate, aggregates over expression arguments, several queries sharing one predicate text, typed numbers; oracle: per group, fire exactly at the rows where the predicate holds on the aggregates since the last fire, result = count/sum/avg over exactly those rows plus the group column, then restart; non-trivial = at least one expected fire",
 		Bounds:      map[string]any{"max_len": map[string]int{"quick": 4, "thorough": 6}, "groups": 2, "values": []string{"1", "2", "3", "NULL"}},
 		Assumptions: []string{"a predicate over an aggregate that is NULL (no usable input) is not true"},
 	}
